@@ -15,7 +15,8 @@
     out      mode 0: the buffer after the 4-byte size prefix when Process returned; mode 1: the published
              message without its prefix (empty: nothing was published); mode 2: the body without prefix
     trace    mode 0: every call on the transport: TL [TI kind; bytes; TI ok]  kind 0 Write / WriteString /
-             WriteByte (ok = it returned nil), 1 Flush, 2 Reset
+             WriteByte (ok = it returned nil), 1 Flush, 2 Reset (a Reset of a buffer that holds nothing is not
+             compared: see [drop_idle_resets])
     Result: -1 if the model does not reproduce the observation, otherwise
       100 * plan (0 error before output, 1 oneway success, 2 unknown method, 3 SendError, 4 SendReply,
                   5 SendReply of a result its Write rejects)
@@ -86,6 +87,32 @@ Fixpoint same_trace (ms : list bev) (ts : list tok) : bool :=
   | _, _ => false
   end.
 
+(** A Reset from outside on a buffer that holds nothing (it has just emptied itself on a rejected write, or
+    nothing was written yet) cannot be observed: such calls are dropped from both traces before they are
+    compared, so that a redundant Reset in the code is not reported as a difference. *)
+Definition is_nil (b : bytes) : bool := match b with [] => true | _ => false end.
+
+Fixpoint drop_idle_resets (empty : bool) (t : list bev) : list bev :=
+  match t with
+  | [] => []
+  | BW b ok :: r => BW b ok :: drop_idle_resets (if ok then empty && is_nil b else true) r
+  | BFlush :: r => BFlush :: drop_idle_resets empty r
+  | BReset :: r => if empty then drop_idle_resets true r else BReset :: drop_idle_resets true r
+  end.
+
+Fixpoint drop_idle_resets_obs (empty : bool) (ts : list tok) : list tok :=
+  match ts with
+  | [] => []
+  | t :: r =>
+    let f := as_list t in
+    let kind := as_int (nth_tok 0 f) in
+    if kind =? 0 then
+      t :: drop_idle_resets_obs (if as_int (nth_tok 2 f) =? 0 then true else empty && is_nil (as_big (nth_tok 1 f))) r
+    else if kind =? 2 then
+      if empty then drop_idle_resets_obs true r else t :: drop_idle_resets_obs true r
+    else t :: drop_idle_resets_obs empty r
+  end.
+
 Definition rejected (t : list bev) : Z :=
   fold_left (fun a e => match e with BW _ false => a + 1 | _ => a end) t 0.
 
@@ -113,7 +140,7 @@ Definition judge_case (c : tok) : Z :=
   let code := 100 * plan_code (plan_of svc h etext frame) in
   if mode =? 0 then
     let '(err, s) := process_b (Some lim) (split_sizes sizes) svc h true etext frame in
-    if (bool_z err =? oerr) && same_message (bo_data s) oout && same_trace (bo_trace s) otrace
+    if (bool_z err =? oerr) && same_message (bo_data s) oout && same_trace (drop_idle_resets true (bo_trace s)) (drop_idle_resets_obs true otrace)
     then code + 10 * rejected (bo_trace s) + (match bo_data s with [] => 1 | _ => 0 end)
     else -1
   else if mode =? 1 then
